@@ -126,7 +126,13 @@ def make_case(r, root, op):
         kinds.add(kind)
     # the layer's own metadata file for the routes that need a readable layer
     md = {"uncached": 'v = "1"', "cached-delete": 'v = "1"', "trait-recreate": 'v = "1"', "trait-migrate-recreate": 'other = "x"', "cached-invalid-delete": 'other = "x"', "trait-recreate-create-fails": 'v = "1"'}[op]
-    if r.random() < 0.9 or op != "uncached":
+    shape = r.random()
+    if op == "trait-migrate-recreate" and shape < 0.5:
+        # metadata of another type can also be NO metadata: a toml without [metadata] table, or (restored that way) no toml at all
+        if shape < 0.3:
+            with open(os.path.join(layers, name + ".toml"), "w") as f:
+                f.write("[types]\ncache = true\nlaunch = true\n")
+    elif shape < 0.9 or op not in ("uncached", "cached-delete"):
         with open(os.path.join(layers, name + ".toml"), "w") as f:
             f.write("[types]\ncache = true\nlaunch = true\n\n[metadata]\n%s\n" % md)
     if r.random() < 0.5:
